@@ -46,7 +46,8 @@ Theorem C05_object_roundtrip : forall O, oracle_laws O -> forall o, dom_object o
 Proof. exact object_roundtrip. Qed.
 Print Assumptions C05_object_roundtrip.
 
-(* triple: subject any domain node whose type has no form feed, ANY domain predicate (after F4b also ids with spaces
+(* triple: subject any domain node whose type does not itself contain a subject split ('>' blanks double-quote; needs a
+   form feed inside the type, see C05_triple_subject_type_refuted), ANY domain predicate (after F4b also ids with spaces
    and with text that looks like the end of a predicate), any domain object *)
 Theorem C05_triple_roundtrip : forall O, oracle_laws O -> forall t, dom_triple t = true ->
   parse_triple O (print_triple O t) = Ok t /\
@@ -107,21 +108,29 @@ Print Assumptions C05_triple_subject_type_refuted.
 
 (* ---- graphs: write, then read into an empty graph.
    g : the memory graph's master index (key = UUID pre-image, consistent with its triple).  Domain: every triple in
-   dom_graph-like domain (gdom_triple, implied by dom_triple under oracle_laws), every printed line shorter than 64 KiB and
-   without a newline byte.  Then WriteGraph reports |g|, ReadIntoGraph reports |g| with nil error, and the graph read has
+   dom_graph_triple (dom_triple, and no newline in the subject id / object node id / text literal), every printed line
+   shorter than 64 KiB.  Then WriteGraph reports |g|, ReadIntoGraph reports |g| with nil error, and the graph read has
    exactly the keys (UUIDs) of g. *)
 From BWValues Require Import IoProofs.
 
 Theorem C05_graph_roundtrip : forall O, oracle_laws O -> forall g : graph,
   graph_consistent g ->
-  Forall (fun e => dom_triple (snd e) = true) g ->
-  Forall (fun e => too_long (print_triple O (snd e)) = false /\ ~ In x0a (print_triple O (snd e))) g ->
+  Forall (fun e => dom_graph_triple (snd e) = true) g ->
+  Forall (fun e => too_long (print_triple O (snd e)) = false) g ->
   fst (write_graph O g) = N.of_nat (List.length g) /\
   exists g', read_into_graph O [] (snd (write_graph O g)) = (N.of_nat (List.length g), RNil, g') /\
              forall k, In k (map fst g') <-> In k (map fst g).
 Proof.
-  intros O L g Hc Hd Hl. apply (graph_roundtrip_g O (law_quote O L) g Hc); [|exact Hl].
-  eapply Forall_impl; [|exact Hd]. intros e H. apply dom_triple_g; assumption.
+  intros O L g Hc Hd Hl.
+  assert (Hg : Forall (fun e => gdom_triple O (snd e)) g).
+  { eapply Forall_impl; [|exact Hd]. intros e H. unfold dom_graph_triple in H.
+    apply andb_true_iff in H. destruct H as [H _]. apply andb_true_iff in H. destruct H as [H _].
+    apply dom_triple_g; assumption. }
+  apply (graph_roundtrip_g O (law_quote O L) g Hc Hg).
+  rewrite Forall_forall in *. intros e He. split; [exact (Hl e He)|].
+  specialize (Hd e He). unfold dom_graph_triple in Hd.
+  apply andb_true_iff in Hd. destruct Hd as [Hd H3]. apply andb_true_iff in Hd. destruct Hd as [_ H2].
+  exact (print_triple_no_nl O (law_quote O L) (snd e) (Hg e He) H2 H3).
 Qed.
 Print Assumptions C05_graph_roundtrip.
 
@@ -129,12 +138,13 @@ Print Assumptions C05_graph_roundtrip.
    stops at the first with an error and loads nothing *)
 Theorem C05_graph_roundtrip_refuted : exists g : graph,
   graph_consistent g /\ Forall (fun e => dom_triple (snd e) = true) g /\
+  Forall (fun e => too_long (print_triple id_oracles (snd e)) = false) g /\
   fst (write_graph id_oracles g) = 1%N /\
   fst (read_into_graph id_oracles [] (snd (write_graph id_oracles g))) = (0%N, RErr).
 Proof.
   exists [((lit "/ab", lit "pimmutable", [x61; x0a; x62]),
            mkTriple (mkNode (lit "/a") (lit "b")) (mkPred (lit "p") None) (OLit (LText [x61; x0a; x62])))].
-  split; [repeat constructor|]. split; [repeat constructor|]. split; vm_compute; reflexivity.
+  split; [repeat constructor|]. split; [repeat constructor|]. split; [repeat constructor|]. split; vm_compute; reflexivity.
 Qed.
 Print Assumptions C05_graph_roundtrip_refuted.
 
